@@ -860,7 +860,7 @@ impl Store {
                     Err(e) => format!("image-error {}", e.replace(' ', "_")),
                 })
             }
-            ["d3cut", _, _] => Some("d3 n/a".into()),
+            ["d3cut", _, _] | ["d3cut", _, _, _] => Some("d3 n/a".into()),
             ["restore", i, b] => {
                 // continue from the directory a crash at cut (i, b) leaves behind
                 let (i, b): (usize, usize) = (i.parse().ok()?, b.parse().ok()?);
